@@ -40,6 +40,12 @@ def run(ctx, db, tier):
     atomic.check_roles(ctx, db, 'C01.result-visible-to-pollers', only_functions=C02.RESULT_VISIBILITY_FUNCTIONS, floor=8)
     result_immutable(ctx, db)
     shared.claimed_promise(ctx, db, 'C01.lost-claim-starts-nothing')
+    # the winner's resolution must be observable "rather than as a hang": a thread that registers too late must not block, and an awaiter
+    # that is registered must already carry what the resolver will call
+    C02.sync_waits(ctx, db, 'C01.resolved-future-blocks-nobody')
+    from .. import publish
+    C02.init_before_publish(ctx, db, publish.Summaries(db), 'C01.registered-waiter-is-complete')
+    resolved_constructors(ctx, db)
     if ctx.cfg == 'assert':
         witness.positive(ctx, 'C01.types', 'C01_pos.cpp', 'promise<T> is move-only, future<T> is neither copyable nor movable (static_assert witnesses over the value-type matrix)')
         witness.negative(ctx, 'C01.types-neg', 'C01_neg.cpp', 'copying a promise / moving a future must not compile')
@@ -427,6 +433,20 @@ def has_value_agrees(ctx, db, rid='C01.has-value-agrees'):
             ctx.ob(rid, f, f['key'], bad is None and len(trs) > 0, '%s answers _state != not_value' % name.split('::')[-1] + ('' if not bad else ' -- ' + bad[0]), desc=bad[0] if bad else None)
 
 
+    # the blocking form of has_value() on a still pending future only synchronises: wait()/value() would turn "no value" and an exceptional
+    # result into a throw, and polling must use ready() (the acquire load) - the relaxed pending() does not make the result visible
+    for f, trs in traces_of(db, 'cocls::future::awaitable_bool::operator bool', per_instance=False, helpers=False):
+        trs = [t for t in trs if live(t)]
+        bad = None
+        for tr in trs:
+            thr = [c for c in calls(tr) if norm(c.get('callee')) in ('cocls::future::wait', 'cocls::future::join', 'cocls::future::force_wait', 'cocls::future::value', 'cocls::co_awaiter::wait', 'cocls::future::operator*')]
+            poll = [c for c in calls(tr) if norm(c.get('callee')) in ('cocls::future_common::pending', 'cocls::future_common::initialized')]
+            rdy = [c for c in calls(tr) if norm(c.get('callee')) == 'cocls::future_common::ready']
+            if thr:
+                bad = bad or ('the blocking has_value() reads the result through %s: a dropped promise or an exceptional result is thrown instead of being answered false / true' % norm(thr[0].get('callee')).split('::')[-1], tr)
+            elif poll and not rdy:
+                bad = bad or ('the blocking has_value() decides "already resolved" by %s (relaxed) instead of ready() (acquire): the state tag it then reads may not be visible yet' % norm(poll[0].get('callee')).split('::')[-1], tr)
+        ctx.ob(rid, f, f['key'], bad is None and len(trs) > 0, 'awaitable_bool::operator bool: ready() ? answer : sync() then answer' + ('' if not bad else ' -- ' + bad[0]), desc=bad[0] if bad else None)
     # the future's own bool conversion and negation are the blocking forms of the same question: both must go through has_value() and the
     # waiting conversion of what it returns; answering from the state tag of a still pending future says "no value" while the value is on its way
     for name in ('cocls::future::operator bool', 'cocls::future::operator!'):
@@ -472,3 +492,35 @@ def result_immutable(ctx, db, rid_='C01.result-immutable'):
             ctx.ob(rid, f, (bad or {}).get('loc') or f['key'], bad is None, '%s only reads the payload' % name.split('::')[-1], desc='%s modifies the stored result' % name.split('::')[-1])
     if n < 2:
         raise Broken('future::value not instantiated')
+
+
+def resolved_constructors(ctx, db, rid='C01.resolved-constructors'):
+    """future<T>::set_value / set_exception / set_not_value hand out futures that are born resolved: their slot must hold the ready marker,
+    or every waiter is accepted and nobody ever releases it"""
+    rid = ctx.rule(rid, 'SIBLINGS', 'every tagged constructor of future<T> behind the static factories (set_value, set_exception, set_not_value - value, reference, exception and no-value '
+                   'forms) initialises the base with the ready marker &awaiter::disabled and with the state tag of what it stores; only the default constructor uses the '
+                   '"no promise yet" marker', floor=3)
+    seen = set(); n = 0
+    want = {'__SetValueTag': ('value',), '__SetReferenceTag': ('value', 'value_ref'), '__SetExceptionTag': ('exception',), '__SetNoValueTag': ('not_value',)}
+    for f in db.fns('cocls::future::future'):
+        tag = next((t for t in want if f['params'] and t in (f['params'][0].get('type') or '')), None)
+        if tag is None or (f['key'], tag) in seen:
+            continue
+        seen.add((f['key'], tag)); n += 1
+        base = [e for e in f.events() if e.k == 'construct' and norm(e.get('callee') or '') == 'cocls::future_common::future_common']
+        deleg = [e for e in f.events() if e.k == 'construct' and norm(e.get('callee') or '') == 'cocls::future::future']
+        ok = len(base) == 1 and not deleg
+        why = None
+        if not ok:
+            why = 'the resolved-state constructor does not initialise the base directly (%s)' % ('delegates to another constructor' if deleg else 'no base initialiser')
+        else:
+            a = base[0].get('args') or []
+            marker = (a[0].get('path') if a else '') or ''
+            state = (a[1].get('path') if len(a) > 1 else '') or ''
+            if 'awaiter::disabled' not in marker:
+                ok = False; why = 'the slot of a future born resolved is %s, not the ready marker: waiters are accepted and never released' % (marker or '?')
+            elif not any(state.endswith('::' + w) for w in want[tag]):
+                ok = False; why = 'the state tag %s does not say what the constructor stores' % state
+        ctx.ob(rid, f, f['key'], ok, 'future(%s): ready marker + matching state tag' % tag + ('' if ok else ' -- ' + why), desc=why)
+    if n < 3:
+        raise Broken('tagged constructors of future<T> instantiated: %d (expected the value, exception and no-value forms)' % n)
